@@ -128,58 +128,6 @@ impl Flight {
     }
 }
 
-//--- the recorder's own RFC 8945 layout (independent of the library) ---------
-
-fn sans(wire: &[u8], tsig_off: usize, oid: u16) -> Vec<u8> {
-    let mut v = wire[..tsig_off].to_vec();
-    set_id(&mut v, oid);
-    let ar = get_ar(&v);
-    set_ar(&mut v, ar - 1);
-    v
-}
-fn vars(keyname: &[u8], rr: &TsigRr, other_pad: bool) -> Vec<u8> {
-    let mut v: Vec<u8> = keyname.iter().map(|c| c.to_ascii_lowercase()).collect();
-    v.extend_from_slice(&[0, 255, 0, 0, 0, 0]);
-    v.extend(rr.alg.iter().map(|c| c.to_ascii_lowercase()));
-    v.extend_from_slice(&u48(rr.time));
-    v.extend_from_slice(&rr.fudge.to_be_bytes());
-    v.extend_from_slice(&rr.err.to_be_bytes());
-    v.extend_from_slice(&(rr.other.len() as u16).to_be_bytes());
-    if other_pad {
-        v.extend_from_slice(&[0, 0]);
-    }
-    v.extend_from_slice(&rr.other);
-    v
-}
-fn timers(rr: &TsigRr) -> Vec<u8> {
-    let mut v = u48(rr.time).to_vec();
-    v.extend_from_slice(&rr.fudge.to_be_bytes());
-    v
-}
-fn with_prior(prior: &[u8], rest: Vec<u8>) -> Vec<u8> {
-    let mut v = (prior.len() as u16).to_be_bytes().to_vec();
-    v.extend_from_slice(prior);
-    v.extend(rest);
-    v
-}
-fn cat(a: Vec<u8>, b: Vec<u8>) -> Vec<u8> {
-    let mut v = a;
-    v.extend(b);
-    v
-}
-
-/// first candidate whose HMAC reproduces the MAC on the wire (else the first)
-fn pick(alg: &str, cands: Vec<Vec<u8>>, mac: &[u8]) -> (Vec<u8>, Vec<u8>, bool) {
-    for c in &cands {
-        let f = ref_hmac(alg, SECRET, c);
-        if mac.len() <= f.len() && f[..mac.len()] == *mac {
-            return (c.clone(), f, true);
-        }
-    }
-    let f = ref_hmac(alg, SECRET, &cands[0]);
-    (cands[0].clone(), f, false)
-}
-
 enum C { T(ClientTransaction<Key>), S(ClientSequence<Key>) }
 enum S { T(ServerTransaction<Key>), Q(ServerSequence<Key>), E(ServerError<Key>), N }
 trait Answer { fn answer(&mut self, m: &mut Message<Vec<u8>>, now: u64) -> Result<(), &'static str>; }
